@@ -67,6 +67,18 @@ func (c08) Plan(tier string, seed int64) []core.Scenario {
 			out = append(out, core.Sc("race").WithS("race", rc).WithN("k", rng.Intn(20)).WithN("skew", i%5))
 		}
 	}
+	nm := 16
+	if tier == "thorough" {
+		nm = 300
+	}
+	for i := 0; i < nm; i++ {
+		n := 3 + rng.Intn(4)
+		lens := make([]int, n)
+		for j := range lens {
+			lens[j] = []int{0, 1, 3, 10, 40, 120}[rng.Intn(6)]
+		}
+		out = append(out, core.Sc("multiclose").WithN("end", i%4).WithL(lens))
+	}
 	for i := 0; i < nw; i++ {
 		out = append(out, core.Sc("w1").WithN("variant", i%4))
 		out = append(out, core.Sc("w5").WithN("variant", i%3))
@@ -83,6 +95,8 @@ func (p c08) Run(sc core.Scenario) core.Result {
 	switch sc.Kind {
 	case "term", "race":
 		p.term(sc, r)
+	case "multiclose":
+		p.multiClose(sc, r)
 	case "w1":
 		p.w1(sc, r)
 	case "w5":
@@ -311,6 +325,71 @@ func (c08) term(sc core.Scenario, r *core.R) {
 	r.Obs("terminations", 1)
 	r.Sig(core.Log.Signature())
 	r.Sample(map[string]interface{}{"cause": cause + race, "after_values": k, "consumer": []string{"attentive", "slow"}[sc.I("cons")], "received": len(keys), "handler_sent": sent, "closed": gA.isClosed()})
+}
+
+// multiClose: several channels open at once on one connection are closed by their handlers at
+// different times (so the forwarder's bookkeeping is compacted in every position), optionally
+// followed by a loss / cancel / client close for the survivors. Every channel must terminate with
+// exactly (handler close) or a prefix of (other causes) its own values.
+func (c08) multiClose(sc core.Scenario, r *core.R) {
+	env := NewEnv(EnvOpt{})
+	defer env.Shutdown()
+	pol := noisePolicy(sc)
+	defer pol.Install()()
+	cl, err := env.NewClient(ClientOpt{Opts: []jsonrpc.Option{jsonrpc.WithReconnectBackoff(5*time.Millisecond, 20*time.Millisecond)}})
+	if err != nil {
+		r.Inconclusive("client: %v", err)
+		return
+	}
+	bg := context.Background()
+	sctx, cancel := context.WithCancel(bg)
+	defer cancel()
+	n := len(sc.L)
+	toks := make([]string, n)
+	gots := make([]*got, n)
+	// survivors: two infinite streams that outlive the finite ones
+	for i := 0; i < n; i++ {
+		toks[i] = Tok("a")
+		mode, ln := svc.SGoroutine, sc.L[i]
+		if i >= n-2 && sc.I("end") != 0 {
+			mode, ln = svc.SInfinite, 0
+		}
+		ch, err := cl.Sub(sctx, toks[i], ln, mode)
+		if err != nil {
+			r.Violate("subscribe-failed", "subscription %d of %d failed on a healthy link: %v", i, n, err)
+			return
+		}
+		gots[i] = drainItems(ch, 0, -1, nil)
+	}
+	finite := n
+	if sc.I("end") != 0 {
+		finite = n - 2
+	}
+	for i := 0; i < finite; i++ {
+		if !core.WaitCh(gots[i].done, 2*core.Grace) {
+			r.Violate("channel-not-closed:hclose", "stream %d of %d (len %d) closed by its handler is still open on the client (received %d); events: %s", i, n, sc.L[i], gots[i].n(), core.Log.Tail(30))
+		}
+		checkSeq(r, "multi(handler close)", toks[i], gots[i].snapshot(), sc.L[i], true)
+	}
+	switch sc.I("end") {
+	case 1:
+		cancel()
+	case 2:
+		env.Px.KillAll(wsproxy.RST)
+		probeUntilHealthy(cl, r, 2*core.Grace)
+	case 3:
+		cl.Close()
+	}
+	for i := finite; i < n; i++ {
+		if !core.WaitCh(gots[i].done, core.Grace) {
+			r.Violate("channel-not-closed:multi", "surviving stream %d of %d still open after end cause %d", i, n, sc.I("end"))
+		}
+		checkSeq(r, "multi(survivor)", toks[i], gots[i].snapshot(), int(env.Svc.Get(toks[i]).Sent)+1, false)
+	}
+	r.Key(fmt.Sprintf("multiclose n=%d end=%d lens=%v", n, sc.I("end"), sc.L), true)
+	r.Obs("terminations", int64(n))
+	r.Sig(core.Log.Signature())
+	r.Sample(map[string]interface{}{"streams": n, "lengths": sc.L, "then": []string{"nothing", "cancel survivors", "connection reset", "client close"}[sc.I("end")]})
 }
 
 // w1: the subscription's response has been looked up, then the loss closes all
